@@ -106,6 +106,88 @@ def sx(t):
     return out
 
 
+def parse_sx(text):
+    toks = text.split()
+    pos = [0]
+
+    def go():
+        if pos[0] >= len(toks):
+            raise ValueError("short")
+        t = toks[pos[0]]
+        pos[0] += 1
+        k = t[0]
+        if k == "a":
+            return ("a", "".join(map(chr, dec(t[1:]))))
+        if k == "i":
+            return ("i", int(t[1:]))
+        if k == "f":
+            return ("f", "".join(map(chr, dec(t[1:]))))
+        if k == "v":
+            return ("v", int(t[1:]))
+        if k == "c":
+            n = int(toks[pos[0]])
+            pos[0] += 1
+            return ("c", "".join(map(chr, dec(t[1:]))), [go() for _ in range(n)])
+        raise ValueError("bad token " + t)
+    try:
+        r = go()
+    except (ValueError, IndexError):
+        return None
+    return r if pos[0] == len(toks) else None
+
+
+def norm_vars(t):
+    """number variables by first occurrence (preorder), as the driver does"""
+    m = {}
+
+    def go(t):
+        if t[0] == "v":
+            if t[1] not in m:
+                m[t[1]] = len(m)
+            return ("v", m[t[1]])
+        if t[0] == "c":
+            return ("c", t[1], [go(x) for x in t[2]])
+        return t
+    return go(t)
+
+
+def same_tree(a, b):
+    if a is None or b is None or a[0] != b[0]:
+        return False
+    if a[0] == "f":
+        try:
+            return float(a[1]) == float(b[1])
+        except ValueError:
+            return False
+    if a[0] == "c":
+        return a[1] == b[1] and len(a[2]) == len(b[2]) and all(same_tree(x, y) for x, y in zip(a[2], b[2]))
+    return a[1] == b[1]
+
+
+def fetch_default_ops():
+    q = "findall(ZP-ZT-ZCs,(current_op(ZP,ZT,ZN),atom_codes(ZN,ZCs)),A1)"
+    impl, _ = diff.run_cases([{"id": "ops0", "impl": ["R\tropsx", "Q\tops0\t1\t%s,%s." % (base.PRELUDE, q)]}])
+    r = impl.get("ops0", "")
+    out = []
+    for m in re.finditer(r"'-'\('-'\((\d+),'(\w+)'\),(\[[\d,]*\]|\"[^\"]*\")\)", r):
+        cs = m.group(3)
+        name = "".join(map(chr, parse_codes(cs))) if cs.startswith("[") else cs[1:-1]
+        out.append((int(m.group(1)), m.group(2), name))
+    return out
+
+
+def op_class(ty):
+    return "in" if TYPES[ty] == 2 else ("pre" if ty in ("fy", "fx") else "post")
+
+
+def merged_ops(default, user):
+    tbl = list(default)
+    for p, ty, n in user:
+        tbl = [(p2, t2, n2) for (p2, t2, n2) in tbl if not (n2 == n and op_class(t2) == op_class(ty))]
+        tbl.append((p, ty, n))
+    return tbl
+
+
 def size(t):
     return 1 + (sum(size(x) for x in t[2]) if t[0] == "c" else 0)
 
@@ -186,7 +268,7 @@ def make_case(i, term, ops, reset=False, extra_text=None):
     cid = "t%d" % i
     decl = ",".join("op(%d,%s,%s)" % (p, ty, q_atom(n)) for p, ty, n in ops)
     undo = ",".join("catch(op(0,%s,%s),_,true)" % (ty, q_atom(n)) for p, ty, n in ops)
-    body = ["ZT = %s" % pl_text(term)]
+    body = ["ZT = (%s)" % pl_text(term)]
     k = 1
     for name, opts in WRITERS:
         body.append("write_term_to_chars(ZT,%s,ZC%d),maplist(char_code,ZC%d,A%d)," % (opts, k, k, 2 * k - 1) +
@@ -257,6 +339,9 @@ def run(ctx):
     for c in cases:
         allc |= all_cps(c["term"], c["ops"])
     tbl, _missing = base.uc_table(allc)
+    default_ops = fetch_default_ops()
+    if len(default_ops) < 30:
+        core.log("[C15] could not read the operator table of a fresh machine (%d rows)" % len(default_ops))
 
     # first model pass: canonical text of the term, to be read by the implementation
     pre = ["canon\tp%s\t%s\t%s" % (c["id"], base.uc_arg(tbl, all_cps(c["term"], c["ops"])), " ".join(sx(c["term"]))) for c in cases]
@@ -286,7 +371,7 @@ def run(ctx):
             if cps is None:
                 continue
             op = "readc" if name == "write_canonical" else "reado"
-            second.append("%s\tm%s_%d\t%s\t%s\t%s" % (op, c["id"], k, u, ops_arg(c["ops"]), enc(cps)))
+            second.append("%s\tm%s_%d\t%s\t%s\t%s" % (op, c["id"], k, u, ops_arg(merged_ops(default_ops, c["ops"])), enc(cps)))
     m2 = core.run_model(second) if second else {}
 
     findings, agree, total = [], 0, 0
@@ -302,7 +387,8 @@ def run(ctx):
         total += 1
         r = t_impl.get(c["id"], "missing")
         g = split_top(r, c["n_out"])
-        want = " ".join(sx(c["term"]))
+        want_t = norm_vars(c["term"])
+        want = " ".join(sx(want_t))
         if not g:
             add("disagreement", {"what": "unparsable"}, "impl=%r" % r[:400], c)
             continue
@@ -319,14 +405,21 @@ def run(ctx):
             text = "".join(map(chr, cps or []))
             hist["writer_texts"] += 1
             shape = classify(c["term"])
-            if verdict != "same":
+            if verdict != "same" and has_two_quote_atom(c["term"]) and name != "?":
+                ok = False
+                add("violation", {"defect": "two-quote-atom-written-as-empty", "writer": name},
+                    "term %s written by %s as %r reads back: %s (C55-1: the atom '' of two quote characters is written as the empty atom)"
+                    % (pl_text(c["term"]), name, text, verdict), c)
+            elif verdict != "same":
                 ok = False
                 add("violation", {"what": "roundtrip", "writer": name, "result": verdict, "shape": shape, "user_ops": str(bool(c["ops"]))},
                     "term %s with ops %r written by %s as %r reads back: %s" % (pl_text(c["term"]), c["ops"], name, text, verdict), c)
             mo = m2.get("m%s_%d" % (c["id"], k), "missing")
             if mo.startswith("notmodelled"):
                 hist["model_not_modelled"] += 1
-            elif mo != want:
+            elif has_two_quote_atom(c["term"]) and verdict != "same":
+                pass
+            elif not same_tree(parse_sx(mo), want_t):
                 ok = False
                 kind = "disagreement"
                 add(kind, {"what": "model-read", "writer": name, "shape": shape, "impl_roundtrip": verdict},
@@ -362,6 +455,10 @@ def run(ctx):
         "histogram": hist,
         "findings": findings,
     }
+
+
+def has_two_quote_atom(t):
+    return (t[0] in ("a", "c") and t[1] == "\'\'") or (t[0] == "c" and any(has_two_quote_atom(x) for x in t[2]))
 
 
 def classify(t):
